@@ -252,17 +252,22 @@ CLAIMED["C18"] = dict(
          "condition, so C09's refinement applies to EVERY failure point: C18_append_every_point — whatever prefix of the work was "
          "done, every node the file held is still at its path with exactly the content it had, the root group is again the encoding "
          "of a well-formed tree (no scratch group), other trees and the header are untouched (C09_other_roots); C18_new_node_fresh — "
-         "a node being written for the first time goes under a name that was free. Finer granularity: the check makes EVERY h5py "
-         "mutation (create group / dataset / attribute, move, link, delete) of every generated append / append-over fail in turn on "
-         "the real code and inspects the file (paths present, individually readable, content held, other trees, scratch groups), "
-         "plus naturally failing saves.",
-    note="PARTIAL: (1) inside one node write the individual mutations are not modelled (fault enumeration only); (2) append-over is "
+         "a node being written for the first time goes under a name that was free. Mutation granularity: the primitive h5py "
+         "mutations have a semantics on the store model (EmdModel/Mutations.lean); C18_mutation_step / C18_every_interruption — "
+         "after ANY prefix of a sequence of additive mutations (creations; changes or removals only of objects that were not in "
+         "the file before the save) every object the file held is still at its path with the same attributes and value. The check "
+         "records the mutations the real code performs (every generated append / append-over, EVERY mutation made to fail in turn, "
+         "natural failures, incl. the writer's cleanup), replays each trace in the model (model file = real file, every mutation "
+         "executable, in plain append mode every mutation additive) and inspects the real file (paths, individual reads, content, "
+         "other trees, scratch groups).",
+    note="(1) That the real trace is additive is checked per run on the recorded traces (hundreds per quick run), not proved for "
+         "all inputs — the all-inputs statement is the node-granular theorem; (2) append-over is "
          "NOT failure-atomic for the nodes it replaces — genuine defect, not a small repair, recorded as known finding C18-K1 "
          "(C18_appendover_counterexample); any damage outside that class (append mode, file-only paths the runtime tree does not "
          "reach, other trees) is reported as a violation; (3) process death / power loss inside libhdf5 is not modelled, only "
          "failures surfacing as Python exceptions. One defect found by the enumeration was repaired (half-written root metadata "
          "entry made every later read raise).",
-    technique="Lean 4 proof over pruned runtime trees (all node-granular failure points) + exhaustive h5py fault enumeration on the real code",
+    technique="Lean 4 proofs over pruned runtime trees (node-granular failure points) and over sequences of primitive store mutations (every interruption point) + recorded-trace replay and exhaustive h5py fault enumeration on the real code",
     design="7 C18")
 
 CLAIMED["C15"] = dict(
